@@ -32,4 +32,13 @@ let () =
       hex_of_bytes (effective_uri (req_of m sc login host port path "absent")));
   reg "mgr.acl" (fun [m; sc; login; host; port; path] -> b2s (acl_manager (req_of m sc login host port path "absent")));
   reg "mgr.regex" (fun [s] -> b2s (mgr_regex_match (bytes_of_hex s)));
+  (* unit level (same case lines as harness/h_mgr.cc; the pattern/icase arguments are what the tree configures, the model
+     has them as regenerated constants) *)
+  reg "mgr.u.regex" (fun [_; _; s] -> b2s (mgr_regex_match (bytes_of_hex s)));
+  reg "mgr.u.decode" (fun [s] -> hex_of_bytes (decode_or_dupe (bytes_of_hex s)));
+  reg "mgr.u.unescape" (fun [s] -> hex_of_bytes (rfc1738_unescape (bytes_of_hex s)));
+  reg "mgr.u.query" (fun [s] -> match query_parse_top (bytes_of_hex s) with
+      | QOk r -> "ok " ^ hex_of_bytes r | QThrow -> "throw" | QFuel -> "fuel");
+  reg "mgr.u.uri" (fun [sc; login; host; port; path] -> hex_of_bytes (effective_uri (req_of "G" sc login host port path "absent")));
+  reg "mgr.u.acl" (fun [_; _; sc; login; host; port; path] -> b2s (acl_manager (req_of "G" sc login host port path "absent")));
   reg "mgr.password" (fun [a] -> hex_of_bytes (supplied_password (if a = "absent" then None else Some (bytes_of_hex a))))
